@@ -98,6 +98,7 @@ TOL_TRACER = 1e-4    # tracer = R T M: covers kawin's rounded gas constant 8.314
 TOL_DARKEN = 1e-4    # same finite-difference error as TOL_FD
 TOL_COLSUM = 1e-12   # sum of a column of the mobility matrix relative to its largest entry: pure rounding
 TOL_ORDER = 1e-8     # same equilibrium solved by two objects that differ in element order
+TOL_FORM = 1e-6      # same composition in another argument form: same equilibrium up to the warm-start of the solver
 
 
 def _arrh(m0, q):
@@ -283,6 +284,39 @@ def check_point(s, x, T, order=None):
         cols = np.abs(MM.sum(axis=0)) / np.max(np.abs(MM), axis=0)
         if np.any(cols > TOL_COLSUM):
             bad('mobility-matrix-column-sum', 'relative column sums %s of %s' % (cols.tolist(), MM.tolist()))
+
+    # ---- argument forms: the queries accept the composition with the reference element included (first entry, dropped by
+    # kawin.thermo.utils._process_x) and, for a binary, as a bare scalar.  The same physical composition must give the same
+    # answer; a form the library rejects with an exception is counted, not judged (seed s10e dropped the wrong entry).
+    xfull_user = [xfull[ref]] + list(x)
+    forms = []
+    if n >= 3:
+        forms.append(('full', np.array(xfull_user)))
+        forms.append(('full-list', list(xfull_user)))
+    else:
+        forms.append(('scalar', float(x[0])))
+    for fname, xf in forms:
+        try:
+            Df = np.atleast_2d(np.asarray(th.getInterdiffusivity(xf, T, phase=phase), dtype=float))
+            Dtf = np.asarray(th.getTracerDiffusivity(xf, T, phase=phase), dtype=float)
+        except Exception:
+            continue
+        if Df.shape != D.shape or float(np.max(np.abs(Df - D))) > TOL_FORM * float(np.max(np.abs(D))):
+            bad('argument-form/%s/interdiffusivity' % fname, 'x=%r gives %s, solute form gives %s' % (xf, Df.tolist(), D.tolist()))
+        if Dtf.shape != Dt.shape or float(np.max(np.abs(Dtf - Dt) / np.abs(Dt))) > TOL_FORM:
+            bad('argument-form/%s/tracer' % fname, 'x=%r gives %s, solute form gives %s' % (xf, Dtf.tolist(), Dt.tolist()))
+    try:
+        lf = _local(th, xfull_user, T, phase)
+    except Exception:
+        lf = None
+    if lf is not None:
+        if float(np.max(np.abs(lf[0] - mu0))) > TOL_FORM * max(float(np.max(np.abs(mu0))), 1.0):
+            bad('argument-form/full/chemical-potentials', 'full composition %s gives mu=%s, solute form gives %s'
+                % (xfull_user, lf[0].tolist(), mu0.tolist()))
+        Xf = np.array(lf[1].X, dtype=float)
+        if float(np.max(np.abs(Xf - xa))) > 1e-8:
+            bad('argument-form/full/equilibrium-composition', 'full composition %s equilibrated at %s (alphabetical %s)'
+                % (xfull_user, Xf.tolist(), alpha))
 
     # ---- second element order
     if order is not None:
